@@ -32,7 +32,7 @@ class Metabolite(ModelFeature):
             all_modes = tuple(set([a for a in self.modes if a not in other.modes]))
 
         if len(all_modes) == 0:
-            all_modes = None
+            return None
 
         return Metabolite(all_modes)
 
